@@ -117,16 +117,8 @@ def K():
         def reset_byte_counters(self):
             pass
 
-    class StubTC(TunnelCommunity):
-        """keeps find_circuits / send_data / send_packet of the real class; circuits are real Circuit objects"""
-
-        def __init__(self, log, inner):   # noqa: super().__init__ deliberately not called
-            self.log = log
-            self.circuits = {}
-            self.endpoint = inner
-            self.logger = logging.getLogger("StubTC")
-            self.can_create = True
-            self.next_id = 1
+    class Recording:
+        """create_circuit registers a real Circuit (or fails); send_cell is recorded instead of encrypting and sending"""
 
         def create_circuit(self, goal_hops, ctype=tunnel.CIRCUIT_TYPE_DATA, exit_flags=None, required_exit=None,
                            info_hash=None):
@@ -144,8 +136,32 @@ def K():
             return c
 
         def send_cell(self, target_addr, payload):
+            if payload.msg_id != 1:      # only DataPayload is what send_data produces
+                self.log.append(("cell", payload.msg_id))
+                return
             self.log.append(("data", payload.circuit_id, target_addr, payload.dest_address, payload.org_address,
                              payload.data))
+
+    class StubTC(Recording, TunnelCommunity):
+        """keeps find_circuits / send_data / send_packet of the real class; circuits are real Circuit objects"""
+
+        def __init__(self, log, inner):   # noqa: super().__init__ deliberately not called
+            self.log = log
+            self.circuits = {}
+            self.endpoint = inner
+            self.logger = logging.getLogger("StubTC")
+            self.can_create = True
+            self.next_id = 1
+
+    class LifeTC(Recording, TunnelCommunity):
+        """a fully constructed TunnelCommunity with DEFAULT settings (remove_tunnel_delay = 5 s): the real
+        remove_circuit / on_destroy / do_circuits / do_remove / destroy_circuit drive the circuit lifecycle"""
+
+        def __init__(self, log, settings):
+            self.log = log
+            self.can_create = True
+            self.next_id = 1
+            super().__init__(settings)
 
     class Lis(EndpointListener):
         def __init__(self, ep, lid, log, anonymize):
@@ -166,6 +182,7 @@ def K():
     hop_peers = {k: Peer(keys[k % 4].pub(), (f"10.1.0.{k}", 2000 + k)) for k in range(1, 10)}
     dest = {k: (f"10.0.0.{k}", 1000 + k) for k in range(0, 10)}
     _K = SimpleNamespace(tunnel=tunnel, TunnelEndpoint=TunnelEndpoint, RecEndpoint=RecEndpoint, StubTC=StubTC, Lis=Lis,
+                         LifeTC=LifeTC,
                          hop_peers=hop_peers, dest=dest, rdest={v: k for k, v in dest.items()},
                          rhop={p.address: k for k, p in hop_peers.items()}, keys=keys, Peer=Peer,
                          EXIT_IPV8=tunnel.PEER_FLAG_EXIT_IPV8, InvalidStateError=asyncio.InvalidStateError,
@@ -185,7 +202,7 @@ def generate(ctx: Ctx):
 class Real:
     """the real objects plus the harness's own bookkeeping of what was configured (for the oracle)"""
 
-    def __init__(self, cap=None):
+    def __init__(self, cap=None, make_tc=None):
         k = K()
         self.k = k
         self.log = []
@@ -196,7 +213,8 @@ class Real:
         if cap is not None and isinstance(q, deque) and q.maxlen is not None:
             self.ep.send_queue = deque(maxlen=cap)      # small-scope runs: same container type, smaller bound
             self.bound = cap
-        self.tc = k.StubTC(self.log, self.inner)
+        self.tc = make_tc(self.log) if make_tc else k.StubTC(self.log, self.inner)
+        self.torn = {}              # circuit id -> virtual time at which its removal was requested (destroy sent)
         # bookkeeping (never read back from the endpoint)
         self.anon = {}
         self.att = False
@@ -234,6 +252,9 @@ class Real:
         c = self.tc.circuits.get(cid)
         if c is None:
             return None, "circuit is not registered"
+        if cid in self.torn:
+            return c, (f"circuit is being torn down: remove_circuit was requested at t={self.torn[cid]:.2f} (destroy sent "
+                       f"if asked for), its entry is merely waiting for remove_tunnel_delay; state reported: {c.state}")
         if c._closing:
             return c, "circuit is closing"
         if len(c._hops) < c.goal_hops:
